@@ -69,7 +69,7 @@ func c16cases(env *core.Env) []c16case {
 	}
 	// random directories and page sequences
 	r := rand.New(rand.NewSource(env.Seed*5_000_011 + 16))
-	for i := 0; i < env.Pick(150, 4000); i++ {
+	for i := 0; i < env.Pick(400, 8000); i++ {
 		n := r.Intn(40)
 		if r.Intn(10) == 0 {
 			n = 200 + r.Intn(1200)
